@@ -55,6 +55,14 @@ func (w *World) declareSpecFun(x *Exec, sf *SpecFun) {
 		}
 		return
 	}
+	// spec functions referenced by name inside raw SMT bodies must be declared first
+	if sf.Body.E.Kind == "raw" {
+		for _, other := range x.CS.SpecFuns {
+			if other != sf && strings.Contains(sf.Body.E.Lit, "sf_"+other.Name) {
+				w.declareSpecFun(x, other)
+			}
+		}
+	}
 	// defined function: evaluate the body with parameters bound
 	env := &Env{x: x, st: x.blankState(), binds: map[string]Bound{}, pkg: x.pkgPath(), noLocals: true}
 	env.old = env.st
